@@ -132,9 +132,12 @@ CHECKS["C10"] = dict(
          "On every path: some verdict false => Err, no mutation, generator never run; all true => Ok and exactly the "
          "file records are written with their contents.",
     design_ref="DESIGN.md §4 C10",
-    note="Restricted scope (stated): the click CLI wrapper and side effects inside a real plug-in's own generate() are "
-         "outside; the four real plug-ins are additionally run concretely through GeneratorManager.generate with "
-         "accepted/rejected schemas into a temp directory (conformance of the stub, not the deciding step). Verdict "
+    note="Two entry points: GeneratorManager.generate and the body of the `fcp generate` command "
+         "(fcp.__main__.generate_cmd.callback: real get_fcp on a real file, error = something printed, the real output "
+         "directory observed). Histories: after an accepted generation, after another manager, after a rejected generation. "
+         "Outside (stated): click's argument parsing and side effects inside a real plug-in's own generate(); the four real "
+         "plug-ins are additionally run concretely through GeneratorManager.generate and through `python -m fcp generate` "
+         "with accepted/rejected schemas into a temp directory (conformance of the stub, not the deciding step). Verdict "
          "bits are unconstrained, so the solver's contribution is exhaustive path forking.",
     technique="symbolic execution of the real generate/verify control flow with symbolic check verdicts and records + recording FS model",
 )
@@ -248,7 +251,10 @@ CHECKS["C18"] = dict(
          "argument area, <S>::DecodeJson() dumps the typed value and returns json null - JSON itself is never executed. "
          "Outside the claim: bindings without a bus; 'as'-renamed bindings; payloads above 8 bytes; frame.data beyond dlc. "
          "The open finding KF-DYN-ENCODE-BYTE-ALIGNED (C13) is excluded by its exact effect in the second part. "
-         "Counterexamples are replayed through fcp::can::Can with real nlohmann::json, compiled with clang++ and g++.",
+         "Counterexamples are replayed through fcp::can::Can with real nlohmann::json, compiled with clang++ and g++. "
+         "One witness per schema of the second part also runs natively at -O0 under AddressSanitizer/UBSan (concrete run, "
+         "not the deciding step for values: it exists for undefined behaviour that the optimiser removes from the -O1 IR). "
+         "Decode is checked after a foreign frame with the same id was decoded on the same Can object.",
     technique="symbolic execution of clang's LLVM IR of the generated C++ CAN wrappers (own interpreter; part 1 models the two JSON conversions, part 2 models nothing) + SMT validity/equivalence",
 )
 
